@@ -468,6 +468,14 @@ class Unknown:
 UNK = Unknown()
 
 
+class _BoolFlag:
+    def __repr__(self):
+        return 'BOOLFLAG'
+
+
+BOOLFLAG = _BoolFlag()     # a local holding a boolean the analysis does not know yet: reads like UNK until a test on the flag itself was taken on the path
+
+
 class _FrozenDict(dict):
     """a constant dictionary value of eval3 (hashable so that it can sit in sets of outcomes)"""
     def __hash__(self):
@@ -484,7 +492,8 @@ def eval3(e, env, atoms=None):
     if isinstance(e, ast.Constant):
         return e.value
     if isinstance(e, ast.Name):
-        return env.get(e.id, UNK)
+        v = env.get(e.id, UNK)
+        return UNK if v is BOOLFLAG else v
     if isinstance(e, ast.UnaryOp) and isinstance(e.op, ast.Not):
         v = eval3(e.operand, env, atoms)
         return UNK if v is UNK else (not v)
